@@ -1577,6 +1577,13 @@ def get_item(ctx, o, k):
                 if getattr(c, "is_array", False):
                     ctx.cell(out).is_array = True
                 return out
+            if isinstance(k, SliceV) and c.items is not None and k.st not in (None, 1) and not any(isinstance(x, Sym) for x in (k.lo, k.hi, k.st)):
+                # extended slice with concrete bounds and step: Python's own index arithmetic
+                out = ctx.new_list(c.items[slice(k.lo, k.hi, k.st)])
+                if getattr(c, "is_array", False):
+                    ctx.cell(out).is_array = True
+                    ctx.cell(out).dtype = getattr(c, "dtype", "float")
+                return out
             if isinstance(k, SliceV):
                 if c.items is not None:
                     lo, hi = _slice_bounds(ctx, k, len(c.items))
